@@ -276,3 +276,26 @@ Example C07_reachable_premises_satisfiable :
     key_history_verify s6_cfg s6_check [] (snd eh) (fst eh) s6_user p HComplete false = Some [VRes 2 2 [6]; VRes 1 1 [5]] /\
     key_history_verify s6_cfg s6_check [] (snd eh) (fst eh) s6_user p HComplete true = Some [VRes 2 2 [6]; VRes 1 1 [5]].
 Proof. destruct s6_premises as (_ & _ & _ & _ & _ & _ & _ & _ & _ & _ & _ & H & _). exact H. Qed.
+
+(* MostRecent(r) with AllowMissingValues, at the directory level *)
+Theorem C07_recent_history_sound_in_every_reachable_state_allow_missing :
+  forall (cfg : config) (Bad : Prop), Binding cfg Bad ->
+  forall (ck : bytes) (vrf_label : bytes -> bool -> N -> option nlabel),
+  (forall l f v nl, vrf_label l f v = Some nl -> WF nl /\ canonical nl = true /\ llen nl = 256) ->
+  (forall l f v l' f' v' nl, vrf_label l f v = Some nl -> vrf_label l' f' v' = Some nl -> l = l' /\ f = f' /\ v = v') ->
+  forall (vrf_check : bytes -> bytes -> bytes -> option bytes) (pk l : bytes) (F : bool -> N -> nlabel),
+  (forall f v, llen (F f v) = 256 /\ WF (F f v) /\ LW (F f v)) ->
+  (forall f v nl, vrf_label l f v = Some nl -> nl = F f v) ->
+  (forall f v l' f' v', v < 2 ^ 64 -> vrf_label l' f' v' = Some (F f v) -> l' = l /\ f' = f /\ v' = v) ->
+  (forall proof f v out, v < 2 ^ 64 -> vrf_check pk proof (label_input_hash cfg l f v) = Some out -> NL out 256 = F f v) ->
+  (forall key lb ver value, Len64 (c_commitment_nonce cfg key lb ver value)) ->
+  D32 (c_stale_value cfg) ->
+  forall reqs,
+  let st := run_publishes cfg ck vrf_label dir_new reqs in
+  (forall s, In s (d_states st) -> Len64 (vr_value s)) -> d_epoch st < 2 ^ 64 ->
+  forall E p rs r, hp_ok2 p ->
+  user_history (d_states st) l (d_epoch st) <> [] -> d_epoch st <= E -> E < 2 ^ 64 ->
+  key_history_verify cfg vrf_check pk (snd (epoch_hash cfg st)) E l p (HMostRecent r) true = Some rs ->
+  Forall2 amrel rs (map DirSoundReach.entry_of_state (firstn (N.to_nat r) (user_history (d_states st) l (d_epoch st)))) \/ Bad.
+Proof. exact DirSoundReach.history_recent_sound_reachable_am. Qed.
+Print Assumptions C07_recent_history_sound_in_every_reachable_state_allow_missing.
